@@ -399,7 +399,8 @@ class CHECK(core.Check):
                  "correspondence after every step")
     LEVEL_TEXT = ("Full proof on the model for every history of creations, clears and namespace switches: every registry "
                   "dict is a map with one instance per name and every instance ever registered is still found under its "
-                  "own name in the dict it registered in (C47_names_injective, C47_registered_stays), an explicit "
+                  "own name in the dict it registered in and in no other (C47_names_injective, C47_registered_stays, "
+                  "C47_one_namespace_per_instance), an explicit "
                   "duplicate is rejected and no dict changes (C47_duplicate_rejected), the automatic-name loop ends for "
                   "EVERY sequence of random letters within maxLen(Names)+1-len(start) letters on a name not in Names "
                   "(C47_autoname_terminates_fresh, C47_auto_never_rejected), a creation touches only the dict current "
